@@ -10,6 +10,11 @@ package main
 //	call:.<Method>     calls of the reflection methods MapRange / MapKeys on any receiver
 //	append copy delete clear   builtin calls whose first argument is a JSON container      (root package only)
 //	set-index          assignments / inc-dec whose left side indexes a JSON container      (root package only)
+//	make-cap           make(T, len, cap) of a JSON container type: storage with capacity beyond its length
+//	                   (an in-place append target if it is ever shared)                    (root package only)
+//	code-const         every JSON container that becomes an instruction operand: the `v:` field of a `code{...}`
+//	                   literal whose value has a JSON container type, with its expression text — `[]any{}`
+//	                   (zero capacity) is what opappend's accumulators must start from     (root package only)
 //
 // as (file, enclosing top-level function, kind, expression text) into coq/gen/GenMapSites.v.  These are all
 // the places where Go map iteration order can leak and all the places where a JSON container is written.
@@ -191,10 +196,35 @@ func scan(dir, label string, writes bool) ([]site, bool, []string) {
 						if !writes {
 							break
 						}
+						if fun.Name == "make" && len(n.Args) == 3 {
+							if _, isBuiltin := info.Uses[fun].(*types.Builtin); isBuiltin && isJSONContainer(typeOf(n)) {
+								add("make-cap", n)
+							}
+						}
 						switch fun.Name {
 						case "append", "copy", "delete", "clear":
 							if _, isBuiltin := info.Uses[fun].(*types.Builtin); isBuiltin && len(n.Args) > 0 && isJSONContainer(typeOf(n.Args[0])) {
 								add(fun.Name, n.Args[0])
+							}
+						}
+					}
+				case *ast.CompositeLit:
+					if !writes {
+						break
+					}
+					if id, ok := n.Type.(*ast.Ident); ok && id.Name == "code" {
+						for _, el := range n.Elts {
+							if kv, ok := el.(*ast.KeyValueExpr); ok {
+								if k, ok := kv.Key.(*ast.Ident); ok && k.Name == "v" {
+									if t := typeOf(kv.Value); isJSONContainer(t) {
+										add("code-const", kv.Value)
+									} else if t != nil {
+										// an operand of static type `any` may hold a container at run time
+										if it, ok := t.Underlying().(*types.Interface); ok && it.NumMethods() == 0 {
+											add("code-const-any", kv.Value)
+										}
+									}
+								}
 							}
 						}
 					}
